@@ -10,6 +10,7 @@ package actionlint
 
 import (
 	"fmt"
+	"os"
 	"regexp"
 	"strings"
 	"testing"
@@ -214,6 +215,38 @@ func TestVerifC12(t *testing.T) {
 					}
 					r.Begin(func() string { return fmt.Sprintf("%s %s %s emb %d", v.Cat.Seed, p.Path, n.name, e) })
 					c12Judge(r, v.Cat, p, sch, n.name, n.isFunc, e, text)
+				}
+			}
+		}
+	}
+	// the positions of the repository's own clean workflows whose place in the schema is known
+	// (other shapes, siblings and orders than the seeds) x {secrets, github, always} x 2 embeddings
+	repo := os.Getenv("VERIF_REPO")
+	if repo == "" {
+		repo = "/repo"
+	}
+	corpus := vCorpusCatalogues(repo, true)
+	r.Bounds["corpus_workflows"] = len(corpus)
+	for _, c := range corpus {
+		for _, p := range c.Scalars {
+			sch, ok := vSchemaOf(p.NPath)
+			if !ok || sch.Exempt {
+				continue
+			}
+			for _, n := range []struct {
+				name   string
+				isFunc bool
+			}{{"secrets", false}, {"github", false}, {"always", true}} {
+				for e, text := range c12Embeddings(n.name, n.isFunc)[:2] {
+					idx++
+					if !r.Mine(idx) {
+						continue
+					}
+					if idx%1024 == 0 && r.Expired() {
+						return
+					}
+					r.Begin(func() string { return fmt.Sprintf("%s %s %s emb %d", c.Seed, p.Path, n.name, e) })
+					c12Judge(r, c, p, sch, n.name, n.isFunc, e, text)
 				}
 			}
 		}
